@@ -268,6 +268,7 @@ def selftest():
 class Cmp:
     def __init__(self, chk):
         self.chk = chk
+        self.reported = set()
         self.pending = {}        # key -> (reason, replay) first example of a modelled defect
         self.counts = {}
 
@@ -295,6 +296,10 @@ class Cmp:
                         if got:
                             rmode, c, x, y, r = got
                     reason = r[1] if r else None
+                    if (rmode, c) in self.reported:  # the search led to an input that is reported already
+                        nbad -= 1
+                        continue
+                    self.reported.add((rmode, c))
                     chk.violation("%s: implementation and model disagree%s" % (name, (": " + reason) if reason else ""),
                                   {"kind": "correspondence", "obligation": name, "mode": rmode, "case": c,
                                    "impl": x, "model": y, "monitor": reason}, found_input=reason is not None)
